@@ -45,6 +45,13 @@ func main(a uint6, b uint6) (uint6, bool) {
 }
 `
 
+const c16StreamRepeatSrc = `package main
+func main(a uint8, b uint8) (uint16, uint8, uint8) {
+	s := a + b
+	return uint16(s) << 3, s, s >> 2
+}
+`
+
 func c16Configs() []*c16Config {
 	var out []*c16Config
 	mk := func(seed uint64) *circuit.Circuit {
@@ -61,6 +68,15 @@ func c16Configs() []*c16Config {
 		flat, _ := refc.EvalFlat(c, []*big.Int{refc.Flatten(c.Inputs, []*big.Int{x, y})})
 		out = append(out, &c16Config{name: fmt.Sprintf("whole-circuit#%d/%s", i, []string{"CO", "COT", "COT-malicious"}[otk]), ot: otk, circ: c, x: x, y: y,
 			want: refc.SplitOut(c.Outputs, flat[0]), seed: uint64(7000 + i)})
+	}
+	// a streaming program whose results repeat wire ids: the same value returned
+	// twice, shifted (constant padding wires) and widened (shared zero wire)
+	{
+		a, b := 173, 58
+		sum := (a + b) & 0xff
+		out = append(out, &c16Config{name: "streaming#2/CO", stream: true, ot: 0, src: c16StreamRepeatSrc,
+			gIn: []string{fmt.Sprint(a)}, eIn: []string{fmt.Sprint(b)}, seed: 7102,
+			want: []*big.Int{big.NewInt(int64(sum << 3)), big.NewInt(int64(sum)), big.NewInt(int64(sum >> 2))}})
 	}
 	for i, in := range [][2]int{{41, 22}, {3, 60}} {
 		cfg := &c16Config{name: fmt.Sprintf("streaming#%d/CO", i), stream: true, ot: 0, src: c16StreamSrc,
@@ -169,14 +185,14 @@ func init() {
 	vrt.AuxCmds["c16"] = c16Aux
 	vrt.Register(&vrt.Prop{
 		ID: "C16", Level: "fault_enumeration",
-		Rule: "six configurations (whole-circuit with CO, COT, COT-malicious on generated 2-3-output circuits; streaming with CO) each have a clean run that fixes the two direction lengths (identical randomness in every session of a configuration); then one session per fault: thorough = EVERY byte offset of both directions with a byte replacement, plus a 2-64 byte random burst at sampled offsets and single-bit flips (all 8 bits of every byte for the CO configurations, one sampled bit at every 5th offset for the OT-extension ones); both tiers add every bit of the first eight bytes of the first two and last four transport writes (flush units) of each direction (message framing: lengths, counts, opcodes) and, over the tail of the evaluator's stream, the same mask on two bytes 16 apart and constant-mask bursts of 32/64 bytes; quick = a PRNG subset plus a low-bit flip at every offset of the last 160 bytes of the garbler's stream. " +
+		Rule: "seven configurations (whole-circuit with CO, COT, COT-malicious on generated 2-3-output circuits; streaming with CO, one program returning repeated wire ids) each have a clean run that fixes the two direction lengths (identical randomness in every session of a configuration); then one session per fault: thorough = EVERY byte offset of both directions with a byte replacement, plus a 2-64 byte random burst at sampled offsets and single-bit flips (all 8 bits of every byte for the CO configurations, one sampled bit at every 5th offset for the OT-extension ones); both tiers add the select bit (top bit of the first byte) of each of the last 64 16-byte units of the evaluator's stream, every bit of the first eight bytes of the first two and last four transport writes (flush units) of each direction (message framing: lengths, counts, opcodes) and, over the tail of the evaluator's stream, the same mask on two bytes 16 apart and constant-mask bursts of 32/64 bytes; quick = a PRNG subset plus a low-bit flip at every offset of the last 160 bytes of the garbler's stream. " +
 			"Oracle: garbler err == nil implies its result equals the reference evaluation; outcome classes {error, stalled-and-aborted (0.3 s quiescence window), success, garbler-panic} are counted. Non-trivial = the fault landed inside the transcript; distinct = (configuration, direction, offset, kind).",
 		Assumptions: []string{"faults are random replacements in transit, not structured rewrites by an active attacker", "a stall is recognised after 0.3 s of quiescence of both endpoints; it is an allowed outcome"},
 		NumCases: func(t string) int {
 			if t == "thorough" {
-				return 6 * 80
+				return 7 * 80
 			}
-			return 48
+			return 56
 		},
 		MaxWorkers:  16,
 		CaseTimeout: 8 * time.Minute,
@@ -308,6 +324,15 @@ func runC16(cs *vrt.Case) {
 				}
 				faults = append(faults, fault{1, off, "constburst", bytes.Repeat([]byte{m}, n)})
 			}
+		}
+	}
+	// labels travel as 16-byte units whose first byte carries the select bit in
+	// its top bit: that single bit flipped in each of the last 64 units of the
+	// evaluator's stream (the returned result labels) turns a label into a value
+	// with the other select bit and nothing else changed
+	for k := int64(1); k <= 64 && 16*k <= cfg.len[1]; k++ {
+		if int(k)%per == part {
+			faults = append(faults, fault{1, cfg.len[1] - 16*k, "select-bit", []byte{0x80}})
 		}
 	}
 	// message framing: every bit of the first four bytes (and the low bits of
